@@ -21,8 +21,14 @@ FLOORS = (5000, 500)
 M1 = {"length": "m", "time": "s"}
 M2 = {"length": "cm"}
 M3 = {"length": "km", "time": "min", "mass": "kg"}
+M4 = {"temperature": "K", "length": "m"}
 ALPHABET = (
     [("add", i, mp) for i in ("a", "b") for mp in ("none", "m1", "m2", "shared", "m3")]
+    # a system flagged read-only is a registered system like any other (the flag is advisory: nothing enforces it)
+    + [("add", "a", "m4", "readonly"), ("add", "b", "m1", "readonly"), ("readonly", "a", True), ("readonly", "a", False)]
+    + [("setdefault", "a", "temperature", "degF")]
+    # amounts that are exactly zero (an affine unit makes zero an amount like any other), and a unit of another type
+    + [("convert", "temperature", "degC", 0.0), ("convert", "length", "m", 0.0), ("convert", "length", "kg", 0.0), ("convert", "length", "kg", 2.0)]
     + [("remove", i) for i in ("a", "b", "z")]
     + [("setcur", i) for i in ("a", "b", None)]
     + [("template", t) for t in ("t1", "t2", "t3")]
@@ -31,7 +37,7 @@ ALPHABET = (
     + [("convert", "length", "m", 5.0), ("convert", "time", "min", 3.0), ("convert", "mass", "kg", 2.0)]
 )
 TEMPLATES = {"t1": {"length": "m"}, "t2": {"length": "m", "time": "s"}, "t3": {"mass": "kg"}}
-CATS = ("length", "time", "mass", "depth")
+CATS = ("length", "time", "mass", "depth", "temperature")
 
 
 class Run:
@@ -55,7 +61,7 @@ class Run:
         self.log.append(("unit", c, u))
 
     def mapping(self, kind):
-        return {"none": None, "m1": dict(M1), "m2": dict(M2), "m3": dict(M3), "shared": self.shared}[kind]
+        return {"none": None, "m1": dict(M1), "m2": dict(M2), "m3": dict(M3), "m4": dict(M4), "shared": self.shared}[kind]
 
     def observed(self):
         m = self.m
@@ -67,7 +73,7 @@ class Run:
         k = act[0]
         if k == "setcur":
             return act[1] is None or act[1] in self.M.systems
-        if k in ("setdefault", "removecat"):
+        if k in ("setdefault", "removecat", "readonly"):
             return act[1] in self.M.systems
         return True
 
@@ -81,7 +87,7 @@ class Run:
             if k == "add":
                 mp = self.mapping(act[2])
                 exp = M.add(act[1], None if mp is None else dict(mp))
-                s = m.AddUnitSystem(act[1], act[1].upper(), mp)
+                s = m.AddUnitSystem(act[1], act[1].upper(), mp, read_only=True) if act[3:] == ("readonly",) else m.AddUnitSystem(act[1], act[1].upper(), mp)
                 self.objects[act[1]] = s
                 if s is not m.GetUnitSystemById(act[1]) or s.GetId() != act[1]:
                     problems.append(("AddUnitSystem-returned-another-object", {}))
@@ -103,16 +109,33 @@ class Run:
             elif k == "removecat":
                 exp = M.remove_category(act[1], act[2])
                 m.GetUnitSystems()[act[1]].RemoveCategory(act[2])
+            elif k == "readonly":
+                exp = "ok"
+                m.GetUnitSystems()[act[1]].SetReadOnly(act[2])
+                if m.GetUnitSystems()[act[1]].IsReadOnly() is not act[2]:
+                    problems.append(("SetReadOnly-not-reported-by-IsReadOnly", {}))
             elif k == "convert":
                 from barril.units import ObtainQuantity, Scalar
 
                 exp = "ok"
                 cat, u, v = act[1], act[2], act[3]
                 tu = M.default_unit(cat)
+                if tu is not None:
+                    # with a current default unit the amount is converted by the database: a unit it rejects is rejected here
+                    try:
+                        want = (db.Convert(cat, u, tu, 1.0) and None) or (db.Convert(cat, u, tu, v), tu)
+                    except Exception:
+                        exp = "reject"
+                else:
+                    want = (v, u)
                 r = m.ConvertToCurrent(cat, u, v)
-                want = (v, u) if tu is None else (db.Convert(cat, u, tu, v), tu)
+                if exp == "reject":
+                    problems.append(("ConvertToCurrent-accepted-a-unit-the-database-rejects", {"returned": list(r)}))
+                    return exp, "ok", None, problems
                 if tuple(r) != want:
                     problems.append(("ConvertToCurrent-differs", {"returned": list(r), "expected": list(want)}))
+                if db.GetQuantityType(u) != db.GetCategoryQuantityType(cat):
+                    return exp, "ok", None, problems  # (no current default: the amount comes back as given; there is no Scalar of that unit to try)
                 sc = Scalar(cat if cat != "length" else "depth", v, u)
                 tu2 = M.default_unit(sc.GetCategory())
                 r2 = m.ConvertScalarToCurrent(sc)
